@@ -234,6 +234,51 @@ theorem recycle_shape_matches_source : Shape.asyncio = Shape.trio ∧ Shape.asyn
     Limits.asyncioRecycleOffWhenNone = true ∧ Limits.trioRecycleOffWhenNone = true ∧
     Limits.asyncioRecycleOffWhenConfigNone = true ∧ Limits.trioRecycleOffWhenConfigNone = true := by decide
 
+/-- **where the protocols count a request** (extracted on every run): `await self.context.mark_request()` occurs exactly once
+    in each protocol class, as an unconditional statement of `_create_stream` - the only method that constructs a stream
+    object - and on HTTP/2 `_create_stream` is what received HEADERS (`_handle_events`), the HTTP/1.1 request of an
+    `Upgrade: h2c` connection (`initiate`) and pushed streams (`_create_server_push`) all go through: whatever kind of
+    connection brings a request, the application instance it starts has been counted -/
+theorem mark_request_sites_match_source :
+    Limits.h11MarkRequestIn = "_create_stream" ∧ Limits.h11MarkRequestUnconditional = true ∧ Limits.h11StreamConstructedIn = ["_create_stream"] ∧
+    Limits.h2MarkRequestIn = "_create_stream" ∧ Limits.h2MarkRequestUnconditional = true ∧ Limits.h2StreamConstructedIn = ["_create_stream"] ∧
+    "initiate" ∈ Limits.h2CreateStreamCallers ∧ "_handle_events" ∈ Limits.h2CreateStreamCallers ∧
+    "_handle_events" ∈ Limits.h11CreateStreamCallers := by decide
+
+/-- what one connection adds to the worker's counter: every stream it creates (justified by `mark_request_sites_match_source`).
+    An `Upgrade: h2c` connection counts its HTTP/1.1 request (served on stream 1) and every further stream; a WebSocket
+    handshake is a request like any other -/
+inductive Conn where
+  | h1 (requests : Nat)
+  | h2 (streams : Nat)
+  | h2c (furtherStreams : Nat)
+  | ws
+deriving Repr, DecidableEq
+
+def Conn.taken : Conn → Nat
+  | .h1 n => n
+  | .h2 n => n
+  | .h2c n => n + 1
+  | .ws => 1
+
+def taken (cs : List Conn) : Nat := (cs.map Conn.taken).sum
+
+/-- **recycling counts over all connections of the worker, of every kind**: `terminate` is set iff the requests taken on over
+    the whole history of connections exceed the budget -/
+theorem recycle_over_connections (sh : Shape) (hs : Current sh) (base jitter j : Nat) (hj : drawn sh jitter j) (cs : List Conn) :
+    (Ctx.markN sh (taken cs) (Ctx.new sh (budget sh (some base) j))).terminate = true ↔ base + j < taken cs :=
+  recycle_iff sh hs base jitter j hj (taken cs)
+
+/-- clients that only ever send `Upgrade: h2c` requests, one per connection, recycle the worker like everybody else -/
+theorem recycle_h2c_only (sh : Shape) (hs : Current sh) (base jitter j : Nat) (hj : drawn sh jitter j) (n : Nat) :
+    (Ctx.markN sh (taken (List.replicate n (Conn.h2c 0))) (Ctx.new sh (budget sh (some base) j))).terminate = true ↔ base + j < n := by
+  have : taken (List.replicate n (Conn.h2c 0)) = n := by
+    induction n with
+    | zero => rfl
+    | succ k ih => simp only [taken, List.replicate_succ, List.map_cons, List.sum_cons, Conn.taken] at ih ⊢; omega
+  rw [this]
+  exact recycle_iff sh hs base jitter j hj n
+
 end recycle
 
 /-! ## 3. HTTP/2: settings, refusals, the request maximum -/
